@@ -3645,6 +3645,251 @@ def replay_part(chk, n):
 
 
 # ================================================================================================
+# G. Sampler iterations (local batch jobs): the limits and the configuration every iteration runs under
+# ================================================================================================
+IT_PARAM_VALUES = [0.0, 0.3, 1.1, 2.0]
+IT_INPUTS = [[1, 0], [0, 1], [1, 1]]
+IT_NOISES = [None, {"brightness": 0.9, "transmittance": 0.8, "g2": 0.0, "indistinguishability": 1.0,
+                    "g2_distinguishable": True}]
+
+
+def build_iter_target(case):
+    import perceval as pcvl
+    from perceval.algorithm import Sampler
+    from perceval.utils import BasicState
+    c = pcvl.Circuit(2) // pcvl.BS() // (0, pcvl.PS(pcvl.P("phi0"))) // (1, pcvl.PS(pcvl.P("phi1"))) // pcvl.BS()
+    p = pcvl.Processor("SLOS" if case["kind"] == "probs" else "CliffordClifford2017", c)
+    cfg = case["cfg"]
+    for name, v in zip(("phi0", "phi1"), cfg["params"]):
+        p.get_circuit_parameters()[name].set_value(IT_PARAM_VALUES[v])
+    if cfg["noise"]:
+        p.noise = noise_model(IT_NOISES[cfg["noise"]])
+    p.min_detected_photons_filter(cfg["filter"])
+    p.with_input(BasicState(IT_INPUTS[cfg["input"]]))
+    s = Sampler(p) if cfg["sh"] is None else Sampler(p, max_shots_per_call=cfg["sh"])
+    its = []
+    for it in case["its"]:
+        d = {}
+        if it["params"] is not None:
+            d["circuit_params"] = {f"phi{i}": IT_PARAM_VALUES[v] for i, v in it["params"]}
+        if it["input"] is not None:
+            d["input_state"] = BasicState(IT_INPUTS[it["input"]])
+        if it["filter"] is not None:
+            d["min_detected_photons"] = it["filter"]
+        if it["ms"] is not None:
+            d["max_samples"] = it["ms"]
+        if it["sh"] is not None:
+            d["max_shots"] = it["sh"]
+        if it["noise"] is not None:
+            d["noise"] = noise_model(IT_NOISES[it["noise"]]) or pcvl.NoiseModel()
+        its.append(d)
+    if case["as_list"]:
+        s.add_iteration_list(its)
+    else:
+        for d in its:
+            s.add_iteration(**d)
+    return p, s
+
+
+def observe_cfg(p, s):
+    def val_id(x):
+        return min(range(len(IT_PARAM_VALUES)), key=lambda i: abs(IT_PARAM_VALUES[i] - float(x)))
+    nz = p.noise
+    noise_id = 0
+    if nz is not None and not (nz.brightness == 1 and nz.transmittance == 1 and nz.g2 == 0
+                               and nz.indistinguishability == 1):
+        noise_id = 1
+    return {"ms": s._max_samples, "sh": s._max_shots, "filter": p.experiment.min_photons_filter,
+            "input": IT_INPUTS.index(list(p.input_state)), "noise": noise_id,
+            "params": [val_id(float(p.get_circuit_parameters()[n])) for n in ("phi0", "phi1")]}
+
+
+def run_iter_case(case):
+    """The job for real, with every `processor.samples` / `processor.probs` call observed."""
+    from perceval.components.processor import Processor
+    calls, results = [], []
+    holder = {}
+    orig_samples, orig_probs = Processor.samples, Processor.probs
+
+    def spy_samples(self_, max_samples, max_shots=None, progress_callback=None):
+        o = observe_cfg(self_, holder["s"])
+        o["arg_ms"], o["arg_sh"] = max_samples, max_shots
+        calls.append(o)
+        res = orig_samples(self_, max_samples, max_shots, progress_callback)
+        results.append(len(res["results"]))
+        return res
+
+    def spy_probs(self_, precision=None, progress_callback=None):
+        o = observe_cfg(self_, holder["s"])
+        o["precision"] = precision
+        calls.append(o)
+        return orig_probs(self_, precision, progress_callback)
+
+    obs = {}
+    try:
+        p, s = build_iter_target(case)
+        holder["s"] = s
+        with mock.patch.object(Processor, "samples", spy_samples), mock.patch.object(Processor, "probs", spy_probs), \
+                watchdog(CALL_TIMEOUT):
+            job = s.samples if case["kind"] == "samples" else s.probs
+            try:
+                if case["kind"] == "samples" and case["max_samples"] is not None:
+                    res = job.execute_sync(case["max_samples"])
+                else:
+                    res = job.execute_sync()
+            finally:
+                failed = job.is_failed
+            if failed:
+                obs["raise"] = str(job.status.stop_message).split(":")[0].strip()
+        obs["final"] = observe_cfg(p, s)
+    except Exception as e:  # noqa: BLE001
+        obs["raise"] = type(e).__name__
+    obs["calls"], obs["results"] = calls, results
+    return obs
+
+
+def judge_iter(chk, case, count=True):
+    obs = run_iter_case(case)
+    replay = {"part": "iterations", "case": case}
+    cfg = case["cfg"]
+    if count and "raise" not in obs:
+        chk.branch("iterations-" + case["kind"])
+        if cfg["sh"] is not None and any(it["sh"] is None for it in case["its"]):
+            chk.branch("iterations-under-max_shots_per_call")
+        if any(it["sh"] is not None for it in case["its"]):
+            chk.branch("iterations-own-max_shots")
+        if any(it["ms"] is not None for it in case["its"]):
+            chk.branch("iterations-own-max_samples")
+        if any(it["params"] is not None for it in case["its"]) and any(it["params"] is None for it in case["its"]):
+            chk.branch("iterations-parameters-back-to-default")
+        if any(it["noise"] is not None for it in case["its"]):
+            chk.branch("iterations-noise")
+        if len(case["its"]) >= 3:
+            chk.branch("iterations-three-or-more")
+    # DIRECT ORACLE (documented meaning): an iteration runs under its own max_shots if it names one, else under the
+    # sampler's max_shots_per_call; it never returns more than min(max_samples, max_shots) samples
+    if case["kind"] == "samples":
+        for k, (o, n) in enumerate(zip(obs["calls"], obs["results"])):
+            it = case["its"][k]
+            want_sh = it["sh"] if it["sh"] is not None else cfg["sh"]
+            want_ms = it["ms"] if it["ms"] is not None else case["max_samples"]
+            lim = [x for x in (want_sh, want_ms) if x is not None]
+            if lim and n > min(lim):
+                return ("violation", "iterations:limits-not-honoured",
+                        f"Sampler(max_shots_per_call={cfg['sh']}) with {len(case['its'])} iteration(s), "
+                        f"samples({case['max_samples']}): iteration {k} ({it}) returned {n} samples, its limits are "
+                        f"max_samples={want_ms}, max_shots={want_sh}", replay)
+    if "final" in obs and "raise" not in obs and obs["final"]["sh"] != cfg["sh"]:
+        return ("violation", "iterations:limits-not-honoured",
+                f"a Sampler built with max_shots_per_call={cfg['sh']} holds _max_shots={obs['final']['sh']} after a "
+                f"local job of {len(case['its'])} iteration(s)", replay)
+    rep = chk.lean.ask({"op": "iterate", "fixed": True, "kind": case["kind"], "cfg": cfg, "max_shots": None,
+                        "max_samples": case["max_samples"] if case["kind"] == "samples" else None,
+                        "its": case["its"]})
+    if "raise" in obs or "raise" in rep:
+        if count and "raise" in obs:
+            chk.branch("iterations-raise:" + obs["raise"])
+        if obs.get("raise") != rep.get("raise"):
+            return ("broken", "iterations:model-vs-code", f"code {obs.get('raise', 'returns')}, model "
+                                                          f"{rep.get('raise', 'returns')}", replay)
+        return None
+    keys = ("ms", "sh", "filter", "input", "noise", "params")
+    got = [{k: o[k] for k in keys} for o in obs["calls"]]
+    if case["kind"] == "probs":
+        # `_max_samples` plays no part in a probs job
+        for g, w in zip(got, rep["calls"]):
+            g["ms"] = w["ms"]
+    if got != rep["calls"]:
+        k = next((i for i, (a, b) in enumerate(zip(got, rep["calls"])) if a != b), min(len(got), len(rep["calls"])))
+        return ("broken", "iterations:model-vs-code",
+                f"configuration of iteration {k}: code {got[k] if k < len(got) else None}, model "
+                f"{rep['calls'][k] if k < len(rep['calls']) else None}", replay)
+    if case["kind"] == "samples":
+        for o, w in zip(obs["calls"], rep["calls"]):
+            if (o["arg_ms"], o["arg_sh"]) != (w["ms"], w["sh"]):
+                return ("broken", "iterations:model-vs-code", f"processor.samples called with ({o['arg_ms']}, "
+                                                              f"{o['arg_sh']}), model ({w['ms']}, {w['sh']})", replay)
+    else:
+        for o, w in zip(obs["calls"], rep["calls"]):
+            want = None if w["sh"] is None else min(1e-6, 1 / w["sh"])
+            if o["precision"] != want:
+                return ("broken", "iterations:model-vs-code", f"processor.probs called with precision "
+                                                              f"{o['precision']}, model {want}", replay)
+    fin = {k: obs["final"][k] for k in keys}
+    if case["kind"] == "probs":
+        fin["ms"] = rep["final"]["ms"]
+    if fin != rep["final"]:
+        return ("broken", "iterations:model-vs-code", f"configuration left behind: code {fin}, model {rep['final']}",
+                replay)
+    return None
+
+
+def gen_iter_case(rng):
+    kind = "samples" if rng.random() < 0.75 else "probs"
+    cfg = {"ms": None, "sh": rng.choice([None, 1, 3, 7, 20]), "filter": rng.choice([0, 1]),
+           "input": rng.randrange(len(IT_INPUTS)), "noise": rng.choice([0, 0, 1]),
+           "params": [rng.randrange(len(IT_PARAM_VALUES)) for _ in range(2)]}
+    its = []
+    for _ in range(rng.choice([1, 1, 2, 3, 4])):
+        its.append({"ms": rng.choice([None, None, 2, 9]), "sh": rng.choice([None, None, None, 1, 4, 12]),
+                    "filter": rng.choice([None, None, 0, 1]), "input": rng.choice([None, None, 0, 1, 2]),
+                    "noise": rng.choice([None, None, None, 0, 1]),
+                    # the documented use: every variable parameter named, or no circuit_params at all
+                    "params": rng.choice([None, [[0, rng.randrange(4)], [1, rng.randrange(4)]]])})
+    case = {"kind": kind, "cfg": cfg, "its": its, "as_list": rng.random() < 0.5,
+            "max_samples": rng.choice([None, 5, 15, 40]) if kind == "samples" else None}
+    if kind == "samples" and case["max_samples"] is None and cfg["sh"] is None and rng.random() < 0.7:
+        # nothing limits an iteration without its own limit: keep the job finite
+        case["max_samples"] = 10
+    if kind == "samples" and rng.random() < 0.06:
+        # no limit anywhere for one iteration at least: the documented RuntimeError
+        cfg["sh"], case["max_samples"] = None, None
+        its[0]["ms"], its[0]["sh"] = None, None
+    return case
+
+
+def shrink_iter(chk, case, sig):
+    cur = case
+    for _ in range(6):
+        cands = []
+        if len(cur["its"]) > 1:
+            cands += [dict(cur, its=cur["its"][:i] + cur["its"][i + 1:]) for i in range(len(cur["its"]))]
+        for i, it in enumerate(cur["its"]):
+            for k in ("ms", "sh", "filter", "input", "noise", "params"):
+                if it[k] is not None:
+                    cands.append(dict(cur, its=cur["its"][:i] + [dict(it, **{k: None})] + cur["its"][i + 1:]))
+        if cur["cfg"]["noise"]:
+            cands.append(dict(cur, cfg=dict(cur["cfg"], noise=0)))
+        for c in cands:
+            res = judge_iter(chk, c, count=False)
+            if res is not None and res[1] == sig:
+                cur = c
+                break
+        else:
+            break
+    return cur
+
+
+def iterations_part(chk, n):
+    found = {}
+    for _ in range(n):
+        case = gen_iter_case(chk.rng)
+        res = judge_iter(chk, case)
+        chk.case(("G", case["kind"], json.dumps(case["cfg"], sort_keys=True), json.dumps(case["its"], sort_keys=True),
+                  case["max_samples"]), nontrivial=len(case["its"]) >= 2)
+        if res is not None and (res[0], res[1]) not in found:
+            small = shrink_iter(chk, case, res[1])
+            res2 = judge_iter(chk, small, count=False)
+            found[(res[0], res[1])] = res2 if res2 is not None and res2[1] == res[1] and res2[0] == res[0] else res
+    # the model is the REPAIRED code: where the direct oracle shows the property failing, the differences between
+    # model and code are that same defect and are not reported a second time
+    if any(k == "violation" for k, _sig in found):
+        found = {key: v for key, v in found.items() if key[0] == "violation"}
+    for v in found.values():
+        chk.fail(*v)
+
+
+# ================================================================================================
 # run / replay
 # ================================================================================================
 def load_corpus():
@@ -3733,6 +3978,11 @@ def replay_one(chk, rp):
             chk.fail(*res)
     elif part == "provconst":
         provider_constants(chk)
+    elif part == "iterations":
+        res = judge_iter(chk, rp["case"])
+        chk.case(("G", "replay"), nontrivial=True)
+        if res is not None:
+            chk.fail(*res)
     elif part == "drawing":
         res = judge_drawing(chk, rp["case"])
         chk.case(("D", "replay"), nontrivial=True)
@@ -3806,6 +4056,9 @@ def run(chk: core.Check):
         "series-step-detectors", "series-step-mutate", "series-step-fresh",
         "series-mutate-filter", "series-mutate-noise", "series-mutate-ps", "series-mutate-input",
         "seed-path-fresh-objects", "seed-path-long-lived-objects",
+        "iterations-samples", "iterations-probs", "iterations-under-max_shots_per_call", "iterations-own-max_shots",
+        "iterations-own-max_samples", "iterations-parameters-back-to-default", "iterations-noise",
+        "iterations-three-or-more", "iterations-raise:RuntimeError",
         "drawing-sample", "drawing-p2s", "drawing-sc2s", "drawing-vacuum-left-out",
         "drawing-count-from-table-total", "drawing-raise:RuntimeError", "samples->probs", "roundtrip-counts-probs-counts",
         "replay-provider-constants", "replay-path:loop", "replay-path:fast", "replay-path:none",
@@ -3853,6 +4106,7 @@ def run(chk: core.Check):
     timed("B2 totals (real generators)", totals_part, chk, chk.pick(3000, 20000))
     # F
     timed("F exact replay of recorded draws", replay_part, chk, chk.pick(400, 3000))
+    timed("G Sampler iterations", iterations_part, chk, chk.pick(250, 1500))
     # C
     timed("C limits", limits_part, chk, chk.pick(6, 24))
     timed("C2 Sampler on strong simulation", strong_part, chk, chk.pick(16, 60), chk.pick(60, 120))
